@@ -7,6 +7,8 @@ import (
 	"github.com/couchbase/moss"
 	"os"
 	"path/filepath"
+	"runtime"
+	"runtime/pprof"
 	"sort"
 	"strconv"
 	"strings"
@@ -140,6 +142,20 @@ func main() {
 		os.Exit(e(prop, tier))
 	case "expand": // debugging: expand <prop> <tier> <cfg> [step...]
 		cfgI, _ := strconv.Atoi(os.Args[4])
+		if pf := os.Getenv("VERIF_PROF"); pf != "" { // debugging: CPU profile of repeated expansions
+			f, _ := os.Create(pf)
+			runtime.MemProfileRate = 4096
+			pprof.StartCPUProfile(f)
+			for i := 0; i < 20; i++ {
+				g1Expand(g1Req{Prop: os.Args[2], Tier: os.Args[3], Cfg: cfgI, Path: os.Args[5:]})
+			}
+			pprof.StopCPUProfile()
+			f.Close()
+			if mf, err := os.Create(pf + ".mem"); err == nil {
+				pprof.Lookup("allocs").WriteTo(mf, 0)
+				mf.Close()
+			}
+		}
 		resp := g1Expand(g1Req{Prop: os.Args[2], Tier: os.Args[3], Cfg: cfgI, Path: os.Args[5:]})
 		b, _ := json.MarshalIndent(resp, "", " ")
 		fmt.Println(string(b))
